@@ -102,4 +102,15 @@ CHECKS['C13'] = {
     'design_ref': 'DESIGN.md §4 C13',
 }
 
+CHECKS['C17'] = {
+    'technique': 'static analysis: sibling table over the five operations x {capability API, command API} x un-wrapper, pass-through provenance of every field, shape rule for the Value <-> Option conversions',
+    'text': 'Static rule instances over the MIR of crux_kv: each of the 10 API functions builds exactly its own operation from its like-named parameters (through at most into()), issues one request outside any loop and hands the result to its own un-wrapper; each un-wrapper builds its Ok value only from the fields of its own response kind and returns the shell\'s error; the Value conversions are pure re-taggings with the bytes moved. These shape rules cover every input because no field is computed; encoding across the bridge is C10.',
+    'design_ref': 'DESIGN.md §4 C17',
+}
+CHECKS['C18'] = {
+    'technique': 'static analysis: single-counter and one-id-per-timer provenance rule, dominance rule for the early-clear check over every poll, provenance rule for the Clear request, sibling diff of notify_at / notify_after, compile-fail witnesses (thorough)',
+    'text': 'Static rule instances over the MIR of crux_time: the id counter is a static touched only by one fetch_add; each of the four timer-starting functions takes exactly one id, which is the id of the request, the handle / TimerFuture and the response comparisons; no future is polled (so nothing is sent) before the early-clear check; the Clear request carries the id received on the clear channel and is awaited before Cleared is reported; the two task bodies agree up to the variant. The thorough tier adds rustc witnesses that clear() consumes the handle and the handle is not Clone. Interleavings of fire / clear / drop / late answers are not decided.',
+    'design_ref': 'DESIGN.md §4 C18',
+}
+
 PENDING_REASON = 'check not yet armed in this framework (static rules designed in DESIGN.md §4; implementation in progress)'
